@@ -309,6 +309,62 @@ class WindLayout(object):
         return {'U': a[:, :, 0], 'V': a[:, :, 1]}
 
 
+class CloudRainLayout(object):
+    """CAMx cloud/rain file:
+        header record: [description: `desc` characters][nx i][ny i][nz i]
+        per step: [time f (HHMM)][date i (YYJJJ)]
+                  per layer, per field (5 fields since CAMx 4.3: cloud, rain,
+                  snow, graupel, optical depth; 3 before): [cells f]
+    every record framed by 4-byte big-endian length markers."""
+
+    def __init__(self, nvars, nz, T, rows, cols, date0, time0, desc=20,
+                 step=100, eod=2400):
+        self.nvars, self.nz, self.T = nvars, nz, T
+        self.rows, self.cols, self.cells = rows, cols, rows * cols
+        self.desc = desc
+        self.times = []
+        d, t = date0, time0
+        for i in range(T):
+            self.times.append((d, t))
+            t2 = t + step
+            d, t = (d + 1, t2 - eod) if t2 >= eod else (d, t2)
+        self.H = desc + 12 + 8
+        self.P = 4 * self.cells + 8
+        self.B = 16 + nvars * nz * self.P
+        self.length = self.H + T * self.B
+
+    def record_starts(self):
+        out = [0]
+        for ti in range(self.T):
+            b = self.H + ti * self.B
+            out.append(b)
+            for r in range(self.nvars * self.nz):
+                out.append(b + 16 + r * self.P)
+        return out + [self.length]
+
+    def write_real(self, path, zero=False):
+        """encode with struct only; returns data[T, nz, nvars, rows, cols]"""
+        rng = np.random.RandomState(23)
+        data = rng.rand(self.T, self.nz, self.nvars, self.rows,
+                        self.cols).astype('>f4')
+        if zero:
+            data[:] = 0
+
+        def rec(body):
+            m = struct.pack('>i', len(body))
+            return m + body + m
+        with open(path, 'wb') as f:
+            f.write(rec(b'c' * self.desc + struct.pack(
+                '>iii', self.cols, self.rows, self.nz)))
+            for ti in range(self.T):
+                d, t = self.times[ti]
+                f.write(rec(struct.pack('>fi', float(t), int(d))))
+                for k in range(self.nz):
+                    for v in range(self.nvars):
+                        f.write(rec(data[ti, k, v].tobytes()))
+        return np.asarray(data, dtype='f')
+
+
 class SymFile(object):
     """file object with a symbolic position over a reference layout; the
     twin's unpack_from_file asks model_unpack for the values the layout puts
